@@ -77,6 +77,28 @@ func c05Options(t *rapid.T, words []string) []database.SearchOptions {
 		mk(func(o *database.SearchOptions) { o.ContextBoosts = map[string]float64{w(0) + ":3 zz": math.Inf(1)} }),
 		mk(func(o *database.SearchOptions) { o.ContextBoosts = map[string]float64{w(0): math.NaN()} }),
 	}
+	// with a non-finite boost (a request JSON cannot render): a one-field delta for EVERY remaining field
+	for _, f := range []func(o *database.SearchOptions){
+		func(o *database.SearchOptions) { o.NoCrossPlatform = true },
+		func(o *database.SearchOptions) { o.Limit = 2 },
+		func(o *database.SearchOptions) { o.Limit = 0 },
+		func(o *database.SearchOptions) { o.TopTermsCap = 1 },
+		func(o *database.SearchOptions) { o.FuzzyThreshold = 40 },
+		func(o *database.SearchOptions) { o.UseFuzzy = false },
+		func(o *database.SearchOptions) { o.Platforms = []string{"windows"}; o.NoCrossPlatform = true },
+		func(o *database.SearchOptions) { o.ContextBoosts = map[string]float64{w(0): 3} },
+		func(o *database.SearchOptions) { o.ContextBoosts = map[string]float64{w(0): 1.5} },
+		func(o *database.SearchOptions) { o.ContextBoosts = map[string]float64{} },
+	} {
+		f := f
+		pool = append(pool, mk(func(o *database.SearchOptions) { o.PipelineBoost = math.Inf(1); f(o) }))
+	}
+	pool = append(pool,
+		mk(func(o *database.SearchOptions) { o.PipelineBoost = math.NaN() }),
+		mk(func(o *database.SearchOptions) { o.PipelineBoost = math.NaN(); o.NoCrossPlatform = true }),
+		mk(func(o *database.SearchOptions) { o.PipelineBoost = math.Inf(-1) }),
+		mk(func(o *database.SearchOptions) { o.PipelineBoost = math.Inf(-1); o.NoCrossPlatform = true }),
+	)
 	return pool
 }
 
